@@ -22,7 +22,35 @@ const (
 	flagRRA     = "F2:role-ancestors-not-closed"
 	flagCrash   = "F3:stack-overflow-on-role-cycle"
 	flagForeign = "F4:rule-field-foreign-to-matched-type"
+	flagMixAll  = "F5:all-rule-over-types-with-different-operations"
+	flagOrder   = "F6:acl-order-differs-from-source-text"
 )
+
+type mixedAllRule struct {
+	ws  appdef.QName
+	flt appdef.IFilter
+}
+
+// mixedAll: accepted GRANT ALL / REVOKE ALL rules whose filter matches, among the types their workspace
+// sees, types with different sets of ACL operations
+func mixedAll(sc *Scenario, app appdef.IAppDef) []mixedAllRule {
+	var res []mixedAllRule
+	dws, drs := declared(sc)
+	for i, r := range drs {
+		if r.Kind != "grantall" && r.Kind != "revokeall" {
+			continue
+		}
+		flt := mkFilter(r.Flt)
+		sets := map[string]bool{}
+		for _, t := range appdef.FilterMatches(flt, app.Workspace(qn(dws[i])).Types()) {
+			sets[appdef.ACLOperationsForType(t.Kind()).String()] = true
+		}
+		if len(sets) > 1 {
+			res = append(res, mixedAllRule{qn(dws[i]), flt})
+		}
+	}
+	return res
+}
 
 // child mode: one isolated request per process (a role inheritance cycle overflows the stack)
 func init() {
@@ -85,6 +113,11 @@ func observe(sc *Scenario) (appdef.IAppDef, error) {
 			sc.Wss[wi].Rules[ri].Skipped = ""
 		}
 	}
+	for ai := range sc.Alter {
+		for ri := range sc.Alter[ai].Rules {
+			sc.Alter[ai].Rules[ri].Skipped = ""
+		}
+	}
 	app, err := build(sc)
 	if err != nil {
 		return nil, err
@@ -109,12 +142,24 @@ func observe(sc *Scenario) (appdef.IAppDef, error) {
 		}
 		return app, nil
 	}
+	mixed := mixedAll(sc, app)
+	orderLost := sc.Vsql && !textOrderKept(sc, app)
 	for i := range sc.Queries {
 		q := &sc.Queries[i]
 		q.Flags = nil
 		q.Obs = ask(app, q)
 		if q.Obs != "allow" && q.Obs != "deny" {
 			continue
+		}
+		if orderLost {
+			q.Flags = addFlag(q.Flags, flagOrder)
+		}
+		if w, t := app.Workspace(qn(q.Ws)), app.Workspace(qn(q.Ws)).Type(qn(q.Res)); t != appdef.NullType {
+			for _, m := range mixed {
+				if w.Inherits(m.ws) && m.flt.Match(t) {
+					q.Flags = addFlag(q.Flags, flagMixAll)
+				}
+			}
 		}
 		if n0 := distinct(q.Roles); !isPow2(n0) {
 			p := *q
@@ -170,6 +215,14 @@ func observe(sc *Scenario) (appdef.IAppDef, error) {
 		if foreignFields(app, p.Ws, nil) {
 			p.Flags = addFlag(p.Flags, flagForeign)
 		}
+		if orderLost {
+			p.Flags = addFlag(p.Flags, flagOrder)
+		}
+		for _, m := range mixed {
+			if w.Inherits(m.ws) {
+				p.Flags = addFlag(p.Flags, flagMixAll)
+			}
+		}
 	}
 	return app, nil
 }
@@ -190,7 +243,7 @@ func emit(sc *Scenario, app appdef.IAppDef, out *kit.Out) {
 		k := flagKey(ff)
 		g, ok := groups[k]
 		if !ok {
-			g = &Scenario{Note: sc.Note, Wss: sc.Wss, Isolated: sc.Isolated}
+			g = &Scenario{Note: sc.Note, Wss: sc.Wss, Alter: sc.Alter, Vsql: sc.Vsql, Isolated: sc.Isolated}
 			groups[k] = g
 			order = append(order, k)
 		}
@@ -212,6 +265,8 @@ func emit(sc *Scenario, app appdef.IAppDef, out *kit.Out) {
 	sort.Strings(order)
 	nb := number(app, sc)
 	schema := nb.schema(app)
+	decl := nb.declTerm(sc, app)
+	rbWs, rbApp := nb.readBack(app)
 	for _, k := range order {
 		g := groups[k]
 		if len(g.Queries)+len(g.RRA)+len(g.Pub) == 0 {
@@ -249,7 +304,7 @@ func emit(sc *Scenario, app appdef.IAppDef, out *kit.Out) {
 			}
 			ps = append(ps, fmt.Sprintf("(mkPub %s %s %s)", nb.n(qn(p.Ws)), nb.n(qn(p.Role)), kit.List(es)))
 		}
-		coq := fmt.Sprintf("(mkTrace %s %s %s %s %s)", schema, nb.n(appdef.QNameRoleSystem), kit.List(qs), kit.List(as), kit.List(ps))
+		coq := fmt.Sprintf("(mkTrace %s %s %s %s %s %s %s %s)", schema, decl, rbWs, rbApp, nb.n(appdef.QNameRoleSystem), kit.List(qs), kit.List(as), kit.List(ps))
 		tags := []string{}
 		if k != "" {
 			tags = append(tags, strings.Split(k, "+")...)
@@ -268,6 +323,15 @@ func emit(sc *Scenario, app appdef.IAppDef, out *kit.Out) {
 		if sc.Isolated {
 			tags = append(tags, "stream:role-cycle")
 		}
+		if st.alter > 0 {
+			tags = append(tags, "has:alter-workspace")
+		}
+		if sc.Vsql {
+			tags = append(tags, "stream:vsql")
+		}
+		if st.repeats > 0 {
+			tags = append(tags, "has:exact-repeat-after-other-rule")
+		}
 		for _, o := range []string{"allow", "deny", "err", "crash"} {
 			if outs[o] > 0 {
 				tags = append(tags, "out:"+o)
@@ -280,7 +344,7 @@ func emit(sc *Scenario, app appdef.IAppDef, out *kit.Out) {
 }
 
 type scStats struct {
-	rules, inherits, revokes, fieldRules, types, roles int
+	rules, inherits, revokes, fieldRules, types, roles, alter, repeats int
 	diamond                                            bool
 	sig                                                string
 }
@@ -321,6 +385,21 @@ func stats(sc *Scenario) scStats {
 		}
 		sb.WriteString("]")
 	}
+	for _, a := range sc.Alter {
+		sb.WriteString("+alter[")
+		for _, r := range a.Rules {
+			if r.Skipped == "" {
+				s.rules++
+				s.alter++
+				if r.Kind == "revoke" || r.Kind == "revokeall" {
+					s.revokes++
+				}
+				sb.WriteString(r.Kind[:1] + r.Flt.K[:1])
+			}
+		}
+		sb.WriteString("]")
+	}
+	s.repeats = countRepeats(sc)
 	s.sig = sb.String()
 	return s
 }
@@ -420,7 +499,7 @@ func Generate(seed uint64, n int, tier string, corpusDir string, out *kit.Out) e
 				return fmt.Errorf("generator cannot produce a buildable schema: %w", err)
 			}
 		}
-		if !sc.Isolated {
+		if !sc.Isolated && !sc.Vsql {
 			if app, err := build(sc); err == nil {
 				addRuleDirectedProbes(sc, app, cr)
 				addSearchedProbes(sc, app)
@@ -551,4 +630,32 @@ func addRuleDirectedProbes(sc *Scenario, app appdef.IAppDef, r *kit.Rng) {
 		}
 		sc.Queries = append(sc.Queries, q)
 	}
+}
+
+// countRepeats: declared rules that repeat an earlier rule of the same workspace exactly, with another rule in between
+func countRepeats(sc *Scenario) int {
+	dws, drs := declared(sc)
+	n := 0
+	for i := range drs {
+		a, _ := json.Marshal([]any{dws[i], drs[i].Kind, drs[i].Ops, drs[i].Flt, drs[i].Fields, drs[i].Role})
+		last := -1
+		for j := 0; j < i; j++ {
+			if dws[j] != dws[i] {
+				continue
+			}
+			b, _ := json.Marshal([]any{dws[j], drs[j].Kind, drs[j].Ops, drs[j].Flt, drs[j].Fields, drs[j].Role})
+			if string(a) == string(b) {
+				last = j
+			}
+		}
+		if last >= 0 {
+			for j := last + 1; j < i; j++ {
+				if dws[j] == dws[i] {
+					n++
+					break
+				}
+			}
+		}
+	}
+	return n
 }
